@@ -23,6 +23,10 @@ fn main() {
     // Changes to the rs-matter-codegen build-dependency are tracked automatically by Cargo.
     println!("cargo:rerun-if-changed=build.rs");
 
+    // Verification hooks (`mod verif_kani` at the end of some modules) are guarded by `cfg(kani)`,
+    // which is only ever set by the Kani compiler (`cargo kani` / `cargo kani playback`).
+    println!("cargo:rustc-check-cfg=cfg(kani)");
+
     let out_dir = PathBuf::from(std::env::var("OUT_DIR").unwrap());
 
     rs_matter_codegen::generate("crate", &out_dir);
